@@ -1619,7 +1619,6 @@ pub proof fn lemma_subrange_starts(bs: Seq<u8>, o: int, e: int)
     // every recogniser establishes token_shape itself: here it is only passed on
     hide(token_shape); hide(ws_end); hide(cmt_end); hide(run_end); hide(sep_at); hide(sep_end); hide(cmt_next); hide(sym_at); hide(ws_ascii_end);
 //@   >>>
-//@   mutant token_drops_position "strtok, emptytok," => "emptytok," expect token
 //@ end
 
 //@ extract src/tokenizer/mod.rs :: fn token
